@@ -1171,6 +1171,126 @@ Theorem visited_decl f n :
 Proof. apply before_stop_spec. Qed.
 
 (* ------------------------------------------------------------------ *)
+(* the clauses of the statement, one by one, from the characterisation  *)
+Lemma visited_reached f n : In n (visited v f) -> In n (reach v f).
+Proof. apply before_stop_incl. Qed.
+
+(* ancestors of one node are comparable *)
+Lemma comparable_of l : Forall (fun t0 => NoDup (ids_t t0) -> forall s t u, In s (pre t0) -> In t (pre t0) ->
+    In u (pre_f (rch s)) -> In u (pre_f (rch t)) -> s = t \/ In s (pre_f (rch t)) \/ In t (pre_f (rch s))) l ->
+  NoDup (ids l) -> forall s t u, In s (pre_f l) -> In t (pre_f l) ->
+    In u (pre_f (rch s)) -> In u (pre_f (rch t)) -> s = t \/ In s (pre_f (rch t)) \/ In t (pre_f (rch s)).
+Proof.
+  induction 1 as [|x xs Hx _ IH]; intros ND s t u Hs Ht Hus Hut; [destruct Hs|].
+  destruct (NoDup_ids_cons _ _ ND) as [NDx [NDxs _]].
+  cbn [flat_map] in Hs, Ht. apply in_app_or in Hs. apply in_app_or in Ht.
+  assert (Hin : forall q, In q (pre x) -> In u (pre_f (rch q)) -> In (rid u) (ids_t x)).
+  { intros q Hq Hu. apply in_ids_t. rewrite <- (app_nil_r (pre x)). change (pre x ++ []) with (pre_f [x]).
+    apply (desc_closed [x] q u); [cbn [flat_map]; rewrite app_nil_r; exact Hq|exact Hu]. }
+  assert (Hin2 : forall q, In q (pre_f xs) -> In u (pre_f (rch q)) -> In (rid u) (ids xs)).
+  { intros q Hq Hu. apply in_ids. exact (desc_closed xs q u Hq Hu). }
+  destruct Hs as [Hs|Hs], Ht as [Ht|Ht].
+  - exact (Hx NDx s t u Hs Ht Hus Hut).
+  - exfalso. exact (disj_ids x xs (rid u) ND (Hin s Hs Hus) (Hin2 t Ht Hut)).
+  - exfalso. exact (disj_ids x xs (rid u) ND (Hin t Ht Hut) (Hin2 s Hs Hus)).
+  - exact (IH NDxs s t u Hs Ht Hus Hut).
+Qed.
+
+Lemma comparable_t : forall t0, NoDup (ids_t t0) -> forall s t u, In s (pre t0) -> In t (pre t0) ->
+    In u (pre_f (rch s)) -> In u (pre_f (rch t)) -> s = t \/ In s (pre_f (rch t)) \/ In t (pre_f (rch s)).
+Proof.
+  induction t0 as [id i ch IH] using rt_ind'. intros ND s t u Hs Ht Hus Hut.
+  rewrite ids_t_unfold in ND. cbn [rid rch] in ND. inversion ND as [|? ? _ NDc]; subst.
+  rewrite pre_unfold in Hs, Ht. cbn [rch] in Hs, Ht. destruct Hs as [<-|Hs], Ht as [<-|Ht].
+  - left. reflexivity.
+  - right; right. exact Ht.
+  - right; left. exact Hs.
+  - exact (comparable_of ch IH NDc s t u Hs Ht Hus Hut).
+Qed.
+
+Lemma comparable f : NoDup (ids f) -> forall s t u, In s (pre_f f) -> In t (pre_f f) ->
+    In u (pre_f (rch s)) -> In u (pre_f (rch t)) -> s = t \/ In s (pre_f (rch t)) \/ In t (pre_f (rch s)).
+Proof. apply comparable_of. apply Forall_forall. intros t0 _. apply comparable_t. Qed.
+
+(* a kept node is reached, or lies below a visited node answered select *)
+Lemma kept_open_or_selected f n : NoDup (ids f) -> kept v f n ->
+  exists u, In u (pre_f f) /\ rid u = n /\
+    (all_open f u \/ exists s, In s (pre_f f) /\ In (rid s) (visited v f) /\ v (rid s) = VSelect /\ In u (pre_f (rch s))).
+Proof.
+  intros ND [t [Ht [Hv [Ha Hr]]]].
+  assert (Ho : all_open f t).
+  { apply visited_reached in Hv. apply (reach_decl f ND) in Hv. destruct Hv as [t' [Ht' [E Ho]]].
+    rewrite (node_unique f t t' ND Ht Ht' (eq_sym E)). exact Ho. }
+  destruct Hr as [Hr|[[p [Hp [Hpn Htp]]]|[Hs Hn]]].
+  - exists t. refine (conj Ht (conj (eq_sym Hr) (or_introl Ho))).
+  - exists p. refine (conj Hp (conj Hpn (or_introl _))).
+    intros q Hq Hpq. apply Ho; [exact Hq|]. exact (desc_closed (rch q) p t Hpq Htp).
+  - unfold ids in Hn. apply in_map_iff in Hn. destruct Hn as [u [E Hu]].
+    exists u. refine (conj (desc_closed f t u Ht Hu) (conj E (or_intror _))).
+    exists t. exact (conj Ht (conj Hv (conj Hs Hu))).
+Qed.
+
+(* nothing strictly below a visited node whose answer closes the branch
+   (skip, skip-but-keep-self, stop) is kept *)
+Theorem closed_drops_below f t n : NoDup (ids f) -> In t (pre_f f) -> In (rid t) (reach v f) ->
+  opens (v (rid t)) = false -> v (rid t) <> VSelect -> In n (ids (rch t)) -> ~ In n (ids (F v f)).
+Proof.
+  intros ND Ht Hreach Hclosed Hns Hn Hin. apply (F_ids_kept f ND) in Hin.
+  destruct (kept_open_or_selected f n ND Hin) as [u [Hu [Eu Hcase]]].
+  unfold ids in Hn. apply in_map_iff in Hn. destruct Hn as [u' [Eu' Hu']].
+  assert (Huu : u' = u).
+  { apply (node_unique f u' u ND (desc_closed f t u' Ht Hu') Hu). congruence. }
+  subst u'. destruct Hcase as [Ho|[s [Hs [Hvs [Hsel Hus]]]]].
+  - rewrite (Ho t Ht Hu') in Hclosed. discriminate Hclosed.
+  - assert (Hos : all_open f s).
+    { apply visited_reached in Hvs. apply (reach_decl f ND) in Hvs. destruct Hvs as [s' [Hs' [E Ho]]].
+      rewrite (node_unique f s s' ND Hs Hs' (eq_sym E)). exact Ho. }
+    assert (Hot : all_open f t).
+    { apply (reach_decl f ND) in Hreach. destruct Hreach as [t' [Ht' [E Ho]]].
+      rewrite (node_unique f t t' ND Ht Ht' (eq_sym E)). exact Ho. }
+    destruct (comparable f ND s t u Hs Ht Hus Hu') as [E|[H|H]].
+    + subst s. contradiction.
+    + rewrite (Hos t Ht H) in Hclosed. discriminate Hclosed.
+    + pose proof (Hot s Hs H) as Hopen. rewrite Hsel in Hopen. discriminate Hopen.
+Qed.
+
+(* a visited node answered skip (and_self None/True) or stop is dropped itself *)
+Theorem rejected_dropped f t : NoDup (ids f) -> In t (pre_f f) -> In (rid t) (reach v f) ->
+  v (rid t) = VSkip \/ v (rid t) = VStop -> ~ In (rid t) (ids (F v f)).
+Proof.
+  intros ND Ht Hreach Hv Hin. apply (F_ids_kept f ND) in Hin.
+  assert (Hot : all_open f t).
+  { apply (reach_decl f ND) in Hreach. destruct Hreach as [t' [Ht' [E Ho]]].
+    rewrite (node_unique f t t' ND Ht Ht' (eq_sym E)). exact Ho. }
+  destruct Hin as [a [Ha [Hva [Hacc Hr]]]].
+  assert (Hoa : all_open f a).
+  { apply visited_reached in Hva. apply (reach_decl f ND) in Hva. destruct Hva as [a' [Ha' [E Ho]]].
+    rewrite (node_unique f a a' ND Ha Ha' (eq_sym E)). exact Ho. }
+  destruct Hr as [Hr|[[p [Hp [Hpn Hap]]]|[Hs Hn]]].
+  - rewrite <- Hr in Hacc. destruct Hv as [Hv|Hv]; rewrite Hv in Hacc; discriminate Hacc.
+  - rewrite (node_unique f p t ND Hp Ht Hpn) in Hap. pose proof (Hoa t Ht Hap) as Hopen.
+    destruct Hv as [Hv|Hv]; rewrite Hv in Hopen; discriminate Hopen.
+  - unfold ids in Hn. apply in_map_iff in Hn. destruct Hn as [u [E Hu]].
+    rewrite (node_unique f u t ND (desc_closed f a u Ha Hu) Ht E) in Hu.
+    pose proof (Hot a Ha Hu) as Hopen. rewrite Hs in Hopen. discriminate Hopen.
+Qed.
+
+(* a visited node answered select is kept with its whole branch;
+   one answered True or skip-but-keep-self is kept itself *)
+Theorem accepted_kept f t : NoDup (ids f) -> In t (pre_f f) -> In (rid t) (visited v f) ->
+  (accepts (v (rid t)) = true -> In (rid t) (ids (F v f))) /\
+  (v (rid t) = VSelect -> forall n, In n (ids_t t) -> In n (ids (F v f))).
+Proof.
+  intros ND Ht Hv. split.
+  - intros Ha. apply (F_ids_kept f ND). exists t. refine (conj Ht (conj Hv (conj Ha (or_introl eq_refl)))).
+  - intros Hs n Hn. apply (F_ids_kept f ND). exists t.
+    assert (Ha : accepts (v (rid t)) = true) by (rewrite Hs; reflexivity).
+    refine (conj Ht (conj Hv (conj Ha _))). rewrite ids_t_unfold in Hn. destruct Hn as [Hn|Hn].
+    + left. symmetry. exact Hn.
+    + right; right. exact (conj Hs Hn).
+Qed.
+
+(* ------------------------------------------------------------------ *)
 (* statements assembled for Properties/C08.v                           *)
 Theorem F_subforest f : emb (F v f) f /\ sublist (ids (F v f)) (ids f).
 Proof. exact (conj (F_emb f) (F_order f)). Qed.
